@@ -306,6 +306,23 @@ CHECKS.update({
     ),
 })
 
+CHECKS.update({
+    "C20": (
+        "exploration",
+        "differential testing of the CLI entry points against the library on "
+        "generated, corpus and damaged label files (in-process main(argv), real files)",
+        "pvl_translate.main is run for each of the five formats and its output file "
+        "compared byte for byte with pvl.dumps(pvl.load(in), fresh encoder) (JSON: "
+        "parsed and compared with the label's nested pairs), including which "
+        "exception class escapes; pvl_validate.main is run on 1 and on 2-5 files, its "
+        "report parsed in both layouts and every Loads/Encodes cell compared with "
+        "fresh parser/encoder instances wired as documented. Sampled.",
+        "Trusted: the report parser in props/c20.py; CLI modules are re-imported per "
+        "case so their module-level instances start fresh.",
+        "DESIGN.md 4/C20",
+    ),
+})
+
 PENDING = {}   # id -> reason while a check is not built yet
 
 
